@@ -352,7 +352,56 @@ def compounds():
     t.append(T('pair_occurs', [FRESH(['x'], OP('conde', [EQ(x, PR(P(0), x)), EQ(q, N(1))], [EQ(x, PR(x, x)), EQ(q, N(2))], [EQ(q, N(3))]))], 'multiset'))
     t.append(T('pair_diseq', [FRESH(['x', 'y', 'z'], EQ(q, L(x, y)), EQ(z, PR(x, y)), NE(z, PR(P(0), P(1))), EQ(x, P(2)))], 'multiset'))
     t.append(T('pair_diseq_ground', [FRESH(['z'], EQ(z, PR(P(0), P(1))), NE(z, PR(P(2), P(1))), EQ(q, P(0)))], 'multiset'))
+    t.append(T('pair_fd_fields', [FRESH(['x', 'y'], EQ(q, PR(x, y)), INFDR(L(x, y), 0, 2), REL('ltfd', x, y))], 'multiset', 40))
+    t.append(T('pair_fd_nested', [FRESH(['x', 'y', 'z', 'w'], EQ(z, PR(y, P(0))), EQ(w, PR(x, z)), EQ(q, L(w)), INFDR(L(x, y), 0, 1), REL('diseqfd', x, y))], 'multiset', 40))
     t.append(T('pair_in_list_reify', [FRESH(['x', 'y', 'z'], EQ(z, PR(x, y)), EQ(q, L(z, x)), EQ(y, P(0)))], 'multiset'))
+    return t
+
+
+def CMP(name, *args):
+    return ('cmp', name, list(args))
+
+
+def SOME(t):
+    return ('some', t)
+
+
+NONE = ('none',)
+
+
+def compound_structs():
+    """Values of #[compound] structs (tuple-like `Leaf`, `Wrap`, `Pt`, `Tree`; `Node` with an Option<Leaf> field; named `Named`
+    through match patterns), typed variables, in eq / diseq / occurs check / reification / FD labeling.  Reference: the
+    tagged-list twin of every compound value."""
+    t = []
+    a, b = V('a'), V('b')
+    t.append(T('cs_unify_fields', [FRESH(['x', 'y', 'z'], EQ(z, CMP('Pt', x, P(0))), EQ(z, CMP('Pt', P(1), y)), EQ(q, L(x, y)))], 'multiset'))
+    t.append(T('cs_type_mismatch', [OP('conde', [EQ(CMP('Leaf', P(0)), L(P(0))), EQ(q, N(1))], [EQ(CMP('Leaf', P(0)), P(0)), EQ(q, N(2))],
+                                       [EQ(CMP('Leaf', P(0)), CMP('Wrap', P(0))), EQ(q, N(3))], [EQ(CMP('Leaf', P(0)), CMP('Pt', P(0), P(0))), EQ(q, N(4))],
+                                       [EQ(CMP('Leaf', P(0)), CMP('Leaf', P(1))), EQ(q, N(5))], [EQ(CMP('Leaf', P(0)), ('pair', P(0), P(0))), EQ(q, N(6))])], 'multiset'))
+    t.append(T('cs_option_shapes', [FRESH(['x', 'y'], EQ(q, L(x, y)), OP('conde',
+                                       [EQ(CMP('Node', x, SOME(CMP('Leaf', y))), CMP('Node', P(0), NONE))],
+                                       [EQ(CMP('Node', x, NONE), CMP('Node', P(0), SOME(CMP('Leaf', P(1))))), EQ(y, N(0))],
+                                       [EQ(CMP('Node', x, NONE), CMP('Node', P(1), NONE)), EQ(y, N(1))],
+                                       [EQ(CMP('Node', x, SOME(CMP('Leaf', y))), CMP('Node', P(0), SOME(CMP('Leaf', P(1)))))]))], 'multiset'))
+    t.append(T('cs_option_through_vars', [FRESH(['x', 'y', 'z'], EQ(q, z), EQ(x, CMP('Node', P(0), SOME(CMP('Leaf', z)))), OP('conde', EQ(y, CMP('Node', P(0), NONE)), EQ(y, CMP('Node', P(1), SOME(CMP('Leaf', P(2)))))), EQ(x, y))], 'multiset'))
+    t.append(T('cs_diseq_fields', [FRESH(['x', 'y'], EQ(q, L(x, y)), NE(CMP('Node', x, SOME(CMP('Leaf', y))), CMP('Node', P(0), SOME(CMP('Leaf', P(1))))), EQ(x, P(2)))], 'multiset'))
+    t.append(T('cs_diseq_some_none', [FRESH(['x', 'y'], EQ(q, L(x, y)), NE(CMP('Node', x, SOME(CMP('Leaf', y))), CMP('Node', P(0), NONE)), EQ(x, P(0)))], 'multiset'))
+    t.append(T('cs_diseq_types', [FRESH(['x'], EQ(q, x), NE(CMP('Leaf', x), CMP('Wrap', P(0))), NE(CMP('Leaf', x), CMP('Leaf', P(1))), OP('conde', EQ(x, P(0)), EQ(x, P(1))))], 'multiset'))
+    t.append(T('cs_occurs', [FRESH(['x', 'y'], OP('conde', [EQ(x, CMP('Leaf', x)), EQ(q, N(1))], [EQ(x, CMP('Pt', P(0), y)), EQ(y, CMP('Leaf', x)), EQ(q, N(2))],
+                                                     [EQ(x, CMP('Node', P(0), SOME(CMP('Leaf', x)))), EQ(q, N(3))], [EQ(x, CMP('Pt', y, y)), EQ(q, N(4))]))], 'multiset'))
+    t.append(T('cs_walk_star_nested', [FRESH(['x', 'y', 'z'], EQ(q, CMP('Pt', x, CMP('Leaf', y))), EQ(x, L(y, P(0))), EQ(y, CMP('Wrap', z)), EQ(z, P(1)))], 'multiset'))
+    t.append(T('cs_walk_star_option', [FRESH(['x', 'y'], EQ(q, CMP('Node', x, SOME(CMP('Leaf', y)))), EQ(y, L(x)), EQ(x, P(0)))], 'multiset'))
+    t.append(T('cs_reify_free_fields', [FRESH(['x', 'y'], EQ(q, CMP('Pt', x, CMP('Leaf', y))), NE(x, P(0)))], 'multiset'))
+    t.append(T('cs_typed_var', [FRESH(['x: Leaf', 'y'], EQ(q, CMP('Node', P(0), SOME(x))), EQ(x, CMP('Leaf', y)), OP('conde', EQ(y, P(1)), EQ(y, L(P(2)))))], 'multiset'))
+    t.append(T('cs_recursive_struct', [FRESH(['x: Tree', 'y: Tree', 'z'], EQ(CMP('Tree', z, x, y), CMP('Tree', P(0), y, x)), EQ(q, z))], 'multiset'))
+    t.append(T('cs_match_unnamed', [FRESH(['z'], OP('conde', EQ(z, CMP('Leaf', P(0))), EQ(z, CMP('Wrap', P(1))), EQ(z, NIL)),
+                                          MATCH('match', z, (CMP('Leaf', a), [EQ(q, L(a))]), (CMP('Wrap', a), [EQ(q, a)]), (NIL, [EQ(q, P(2))])))], 'multiset'))
+    t.append(T('cs_match_named', [FRESH(['x: Leaf', 'z'], MATCH('match', z, (CMP('Named', a, b), [EQ(a, P(0)), EQ(b, x), EQ(x, CMP('Leaf', P(1)))])), EQ(q, z))], 'multiset'))
+    t.append(T('cs_match_named_twice', [FRESH(['z', 'w'], MATCH('match', z, (CMP('Named', a, b), [EQ(a, P(0)), EQ(b, CMP('Leaf', P(1)))])),
+                                              MATCH('match', w, (CMP('Named', a, b), [EQ(a, P(2)), EQ(b, CMP('Leaf', P(1)))])), OP('conde', [EQ(z, w), EQ(q, N(1))], [NE(z, w), EQ(q, N(2))]))], 'multiset'))
+    t.append(T('cs_fd_fields', [FRESH(['x', 'y'], EQ(q, CMP('Pt', x, CMP('Leaf', y))), INFDR(L(x, y), 0, 2), REL('ltfd', x, y))], 'multiset', 40))
+    t.append(T('cs_in_list_and_member', [FRESH(['x', 'y', 'z'], EQ(y, CMP('Leaf', P(0))), EQ(z, CMP('Leaf', P(1))), REL('member', x, L(y, z, P(2))), EQ(x, CMP('Leaf', q)))], 'multiset'))
     return t
 
 
@@ -507,3 +556,116 @@ def determinism():
     t.append(T('det_fused_empty', [EQ(q, P(0)), EQ(q, P(1))], 'multiset', 40))
     t.append(T('det_lazy_prefix', [OP('conde', [('loop', [EQ(q, P(0))])], EQ(q, P(1)))], 'covers', 5))
     return t
+
+
+# ---------------------------------------------------------------------------------------------
+# Random program generator (thorough tiers; quick tiers take a few with a fixed seed)
+# ---------------------------------------------------------------------------------------------
+
+def _rterm(rng, vs, depth=1, atoms=True):
+    r = rng.random()
+    if r < 0.35:
+        return V(rng.choice(vs))
+    if r < 0.6 and atoms:
+        return P(rng.randrange(3))
+    if r < 0.66 and atoms:
+        return rng.choice([NIL, N(0), ('str', 'a')])
+    if depth <= 0:
+        return V(rng.choice(vs))
+    if r < 0.86:
+        return L(*[_rterm(rng, vs, depth - 1) for _ in range(rng.randrange(1, 3))])
+    if r < 0.94:
+        return LI([_rterm(rng, vs, depth - 1)], V(rng.choice(vs)))
+    return ('pair', _rterm(rng, vs, 0), _rterm(rng, vs, 0))
+
+
+def _rgoal_tree(rng, vs, depth):
+    r = rng.random()
+    if r < 0.4:
+        return EQ(_rterm(rng, vs), _rterm(rng, vs))
+    if r < 0.65:
+        return NE(_rterm(rng, vs), _rterm(rng, vs))
+    if r < 0.75:
+        return REL('member', V(rng.choice(vs)), L(*[_rterm(rng, vs, 0) for _ in range(rng.randrange(1, 4))]))
+    if depth <= 0:
+        return EQ(V(rng.choice(vs)), _rterm(rng, vs, 0))
+    if r < 0.95:
+        op = rng.choice(['conde', 'conde', 'conde', 'conda', 'condu'])
+        cls = []
+        for _ in range(rng.randrange(2, 4)):
+            cl = [_rgoal_tree(rng, vs, depth - 1) for _ in range(rng.randrange(1, 3))]
+            if rng.random() < 0.12:
+                cl.insert(rng.randrange(len(cl) + 1), rng.choice([TRUE, FALSE]))
+            cls.append(cl)
+        if rng.random() < 0.1:
+            cls.insert(rng.randrange(len(cls) + 1), [rng.choice([TRUE, FALSE])])
+        return (op, cls)
+    return ('onceo', [_rgoal_tree(rng, vs, depth - 1)])
+
+
+def random_tree_programs(seed, n, tag='rt'):
+    """Random terminating programs over ==, !=, member, conde / conda / condu / onceo, true / false, fresh variables;
+    terms: variables, parameters, literals, proper / improper lists, tuple compounds."""
+    rng = random.Random(seed)
+    out = []
+    for i in range(n):
+        vs = ['x', 'y', 'z'][:rng.randrange(2, 4)]
+        goals = [_rgoal_tree(rng, vs, 2) for _ in range(rng.randrange(2, 5))]
+        goals.insert(rng.randrange(len(goals) + 1), EQ(q, L(*[V(v) for v in vs])))
+        committed = any(g[0] in ('conda', 'condu', 'onceo') for g in _walk_goals(goals))
+        out.append(T('%s%d_s%d' % (tag, i, seed), [FRESH(vs, *goals)], 'multiset', 40))
+    return out
+
+
+def _walk_goals(gs):
+    for g in gs:
+        yield g
+        if g[0] in ('conde', 'conda', 'condu', 'cond'):
+            for cl in g[1]:
+                for x in _walk_goals(cl):
+                    yield x
+        elif g[0] in ('onceo', 'fresh'):
+            for x in _walk_goals(g[-1]):
+                yield x
+
+
+def random_fd_programs(seed, n, tag='rf'):
+    """Random CLP(FD) programs: every variable gets at least one domain (interval or sparse, possibly several, possibly after
+    the constraints), constraints among variables / parameters / constants, optional unifications and aliasing."""
+    rng = random.Random(seed)
+    out = []
+    for i in range(n):
+        vs = ['x', 'y', 'z'][:rng.randrange(2, 4)]
+        goals = []
+        lo = rng.randrange(-2, 1)
+        hi = lo + rng.randrange(2, 4)
+        if rng.random() < 0.6:
+            goals.append(INFDR(L(*[V(v) for v in vs]), lo, hi))
+        else:
+            for v in vs:
+                if rng.random() < 0.5:
+                    goals.append(INFDR(V(v), lo + rng.randrange(0, 2), hi))
+                else:
+                    goals.append(INFD(V(v), sorted(set(rng.randrange(lo, hi + 2) for _ in range(3)))))
+        if rng.random() < 0.3:
+            goals.append(INFD(V(rng.choice(vs)), sorted(set(rng.randrange(lo, hi + 1) for _ in range(3)))))
+        for _ in range(rng.randrange(1, 4)):
+            r = rng.random()
+            opnd = lambda: V(rng.choice(vs)) if rng.random() < 0.75 else (P(rng.randrange(2)) if rng.random() < 0.7 else N(rng.randrange(lo, hi + 1)))
+            if r < 0.2:
+                goals.append(REL(rng.choice(['ltefd', 'ltfd']), opnd(), opnd()))
+            elif r < 0.35:
+                goals.append(REL('diseqfd', opnd(), opnd()))
+            elif r < 0.65:
+                goals.append(REL(rng.choice(['plusfd', 'minusfd', 'timesfd']), opnd(), opnd(), opnd()))
+            elif r < 0.8:
+                goals.append(REL('distinctfd', L(*[opnd() for _ in range(rng.randrange(2, 4))])))
+            elif r < 0.9:
+                a, b = rng.sample(vs, 2)
+                goals.append(EQ(V(a), V(b)))
+            else:
+                goals.append(EQ(V(rng.choice(vs)), P(rng.randrange(2)) if rng.random() < 0.6 else N(rng.randrange(lo, hi + 1))))
+        rng.shuffle(goals)
+        goals.insert(rng.randrange(len(goals) + 1), EQ(q, L(*[V(v) for v in vs])))
+        out.append(T('%s%d_s%d' % (tag, i, seed), [FRESH(vs, *goals)], 'multiset', 80))
+    return out
